@@ -300,7 +300,7 @@ func ruleR1() *Rule {
 		ID:    "R1",
 		Title: "POOL-OWN: a pooled scratch object is returned at most once and not used afterwards",
 		Props: []string{"C11", "C10"},
-		Floor: func(cfg Config, prop string) int { return 6 },
+		Floor: floorFor("R1"),
 		Run: func(c *RuleCtx) {
 			pools := c.p.poolGlobals()
 			c.check(len(pools) >= 2, "pools", "-", "the package-level sync.Pool variables are found (confirmed by hand: visitDocumentCtxPool, interimPool)", fmt.Sprintf("found %d", len(pools)))
